@@ -20,7 +20,10 @@ template<typename DT_, typename IT_> struct LocalBackend
   static M make_matrix(LevelCtx&, LM&& m) { return std::move(m); }
   static F make_filter(LevelCtx&, LF&& f) { return std::move(f); }
   static V make_vector(LevelCtx&, int n, DT val) { return V(Index(n), val); }
-  static T0 make_transfer(LM&& p, LM&& r) { return T0(std::move(p), std::move(r)); }
+  /// every second transfer operator of a case is handed to the hierarchy as a CONVERTED copy (Transfer::convert, the route of
+  /// mixed-precision hierarchies): the multigrid must be the same linear map with it (deterministic per case: each case runs in
+  /// its own forked child, the counter starts at 0 there)
+  static T0 make_transfer(LM&& p, LM&& r) { static unsigned built = 0; T0 a(std::move(p), std::move(r)); if((++built) % 2u == 0u) return a; T0 b; b.convert(a); return b; }
   static DT* data(V& v) { return v.elements(); }
   static const DT* data(const V& v) { return v.elements(); }
   static int size(const V& v) { return (int)v.size(); }
